@@ -374,6 +374,11 @@ func (f *Fn) Build(rec *Recorder) interface{} {
 			if len(c.Args) > 0 && c.Args[0] != nil {
 				res.Set(reflect.ValueOf(c.Args[0]))
 			}
+		case "arg1":
+			res = reflect.New(anyType).Elem()
+			if len(c.Args) > 1 && c.Args[1] != nil {
+				res.Set(reflect.ValueOf(c.Args[1]))
+			}
 		case "count":
 			res = reflect.New(anyType).Elem()
 			n := 0
